@@ -295,7 +295,8 @@ def normalize_url(
         hostname = decode_punycode_hostname(hostname).lower()
 
     # Dropping :80 & :443
-    if (port == 80 and scheme == "http") or (port == 443 and scheme == "https"):
+    # NOTE: a protocol-relative url is read as https, like a scheme-less one
+    if (port == 80 and scheme == "http") or (port == 443 and scheme in ("https", "")):
         port = None
 
     # Normalizing the path
